@@ -1,8 +1,12 @@
 package main
 
 import (
+	"sync"
+	"time"
+
 	"bufio"
 	"fmt"
+	"github.com/anishathalye/porcupine"
 	"os"
 	"regexp"
 	"sort"
@@ -373,6 +377,32 @@ func raceViolation(sc *Scenario, lines []string) (*Violation, bool) {
 	sort.Strings(sigs)
 	sig := "race:" + sigs[0] + "|" + sigs[1]
 	return &Violation{sc.Prop, "data-race", sig, "ThreadSanitizer: " + strings.Join(lines, "\n")}, false
+}
+
+// checkLinearizable runs porcupine with a time-out and does not return before porcupine's
+// own goroutine has stopped calling the model: porcupine returns at once on a time-out while
+// a Step may still be in flight, and a Step that executes golib code (C10's self-model)
+// would then run on into the next simulated run, reading that run's package-level simulator
+// as if it were one of its tasks (seen as a hung worker and as a one-off "unlock of unlocked
+// mutex" in ~1 of 10^6 runs before this guard existed).
+func checkLinearizable(model porcupine.Model, ops []porcupine.Operation, timeout time.Duration) porcupine.CheckResult {
+	var mu sync.Mutex
+	cancelled := false
+	step := model.Step
+	guarded := model
+	guarded.Step = func(state, input, output interface{}) (bool, interface{}) {
+		mu.Lock()
+		defer mu.Unlock()
+		if cancelled {
+			return false, state
+		}
+		return step(state, input, output)
+	}
+	r := porcupine.CheckOperationsTimeout(guarded, ops, timeout)
+	mu.Lock() // waits for a Step in flight
+	cancelled = true
+	mu.Unlock()
+	return r
 }
 
 // sortedInts returns the keys of an int-keyed map in increasing order (oracles must not
